@@ -158,7 +158,7 @@ P = ScenarioProperty(
     {
         "levels": (2, 3),
         "extra": S_EXTRA,
-        "families": ["step", "constant", "sphere", "rastrigin", "twobasin", "linear"],
+        "families": ["step", "constant", "sphere", "rastrigin", "twobasin", "linear", "offset"],
         "sprout_kinds": ["simple", "nbc", "composed", "composed", "composed"],
         "level_limit_max": 3,
         "cap": (6, 10),
